@@ -1,0 +1,90 @@
+//! Drop-in replacements for `parking_lot::{Mutex, Condvar}` that never block
+//! the OS thread but hand control to the simulator installed via
+//! `oxidd_core::verif` (only compiled with `--cfg oxidd_verif`)
+
+use std::sync::atomic::{AtomicU32, Ordering::SeqCst};
+
+use oxidd_core::verif::{self, site};
+use parking_lot::MutexGuard;
+
+pub struct Mutex<T>(parking_lot::Mutex<T>);
+
+impl<T> Mutex<T> {
+    #[inline]
+    pub fn new(value: T) -> Self {
+        Self(parking_lot::Mutex::new(value))
+    }
+
+    #[inline]
+    pub fn lock(&self) -> MutexGuard<'_, T> {
+        verif::yield_point(site::MUTEX_LOCK);
+        loop {
+            if let Some(guard) = self.0.try_lock() {
+                return guard;
+            }
+            verif::spin(site::MUTEX_SPIN);
+        }
+    }
+
+    #[inline]
+    pub fn into_inner(self) -> T {
+        self.0.into_inner()
+    }
+}
+
+/// Condition variable with the semantics of `parking_lot::Condvar`: no
+/// spurious wake-ups, a notification without a waiting thread is lost
+pub struct Condvar {
+    waiters: AtomicU32,
+    tokens: AtomicU32,
+}
+
+impl Condvar {
+    #[inline]
+    pub const fn new() -> Self {
+        Self {
+            waiters: AtomicU32::new(0),
+            tokens: AtomicU32::new(0),
+        }
+    }
+
+    pub fn wait<T>(&self, guard: &mut MutexGuard<'_, T>) {
+        let mutex = MutexGuard::mutex(guard);
+        // Registering as a waiter happens while the mutex is still held, like
+        // the enqueue operation of parking_lot
+        self.waiters.fetch_add(1, SeqCst);
+        // SAFETY: the mutex is locked by the current thread (we have the
+        // guard), and we re-acquire it below before returning
+        unsafe { mutex.force_unlock() };
+        loop {
+            let t = self.tokens.load(SeqCst);
+            if t > 0 && self.tokens.compare_exchange(t, t - 1, SeqCst, SeqCst).is_ok() {
+                break;
+            }
+            verif::spin(site::CONDVAR_WAIT);
+        }
+        self.waiters.fetch_sub(1, SeqCst);
+        loop {
+            if let Some(new_guard) = mutex.try_lock() {
+                // `guard` remains the owner of the lock
+                std::mem::forget(new_guard);
+                break;
+            }
+            verif::spin(site::MUTEX_SPIN);
+        }
+    }
+
+    pub fn notify_one(&self) {
+        verif::yield_point(site::CONDVAR_NOTIFY);
+        let waiting = self.waiters.load(SeqCst);
+        let t = self.tokens.load(SeqCst);
+        if t < waiting {
+            self.tokens.store(t + 1, SeqCst);
+        }
+    }
+
+    pub fn notify_all(&self) {
+        verif::yield_point(site::CONDVAR_NOTIFY);
+        self.tokens.store(self.waiters.load(SeqCst), SeqCst);
+    }
+}
